@@ -57,18 +57,30 @@ func subAny[T any](o ro.Observable[T], rec *Recorder) ro.Subscription {
 }
 
 var leakOps = map[string]leakOp{
-	"Interval":            {func(_ ro.Observable[int], r *Recorder) ro.Subscription { return subAny(ro.Interval(time.Millisecond), r) }, false},
-	"IntervalWithInitial": {func(_ ro.Observable[int], r *Recorder) ro.Subscription { return subAny(ro.IntervalWithInitial(time.Millisecond, time.Millisecond), r) }, false},
-	"RangeWithInterval":   {func(_ ro.Observable[int], r *Recorder) ro.Subscription { return subAny(ro.RangeWithInterval(0, 1000, time.Millisecond), r) }, false},
-	"Never":               {func(_ ro.Observable[int], r *Recorder) ro.Subscription { return subAny(ro.Never(), r) }, false},
+	"Interval": {func(_ ro.Observable[int], r *Recorder) ro.Subscription {
+		return subAny(ro.Interval(time.Millisecond), r)
+	}, false},
+	"IntervalWithInitial": {func(_ ro.Observable[int], r *Recorder) ro.Subscription {
+		return subAny(ro.IntervalWithInitial(time.Millisecond, time.Millisecond), r)
+	}, false},
+	"RangeWithInterval": {func(_ ro.Observable[int], r *Recorder) ro.Subscription {
+		return subAny(ro.RangeWithInterval(0, 1000, time.Millisecond), r)
+	}, false},
+	"Never": {func(_ ro.Observable[int], r *Recorder) ro.Subscription { return subAny(ro.Never(), r) }, false},
 	"FromChannel": {func(_ ro.Observable[int], r *Recorder) ro.Subscription {
 		ch := make(chan int)
 		return subAny(ro.FromChannel[int](ch), r)
 	}, false},
-	"ThrowOnContextCancel":  {func(s ro.Observable[int], r *Recorder) ro.Subscription { return subAny(ro.ThrowOnContextCancel[int]()(s), r) }, true},
-	"Delay":                 {func(s ro.Observable[int], r *Recorder) ro.Subscription { return subAny(ro.Delay[int](2*time.Millisecond)(s), r) }, true},
-	"Timeout":               {func(s ro.Observable[int], r *Recorder) ro.Subscription { return subAny(ro.Timeout[int](50*time.Millisecond)(s), r) }, true},
-	"ObserveOn":             {func(s ro.Observable[int], r *Recorder) ro.Subscription { return subAny(ro.ObserveOn[int](2)(s), r) }, true},
+	"ThrowOnContextCancel": {func(s ro.Observable[int], r *Recorder) ro.Subscription {
+		return subAny(ro.ThrowOnContextCancel[int]()(s), r)
+	}, true},
+	"Delay": {func(s ro.Observable[int], r *Recorder) ro.Subscription {
+		return subAny(ro.Delay[int](2*time.Millisecond)(s), r)
+	}, true},
+	"Timeout": {func(s ro.Observable[int], r *Recorder) ro.Subscription {
+		return subAny(ro.Timeout[int](50*time.Millisecond)(s), r)
+	}, true},
+	"ObserveOn": {func(s ro.Observable[int], r *Recorder) ro.Subscription { return subAny(ro.ObserveOn[int](2)(s), r) }, true},
 	"ToChannel": {func(s ro.Observable[int], r *Recorder) ro.Subscription {
 		// a consumer that drains the channel (otherwise the bounded channel rightly blocks the producer)
 		return ro.ToChannel[int](2)(s).SubscribeWithContext(ctxFromMarks([]int{7}), ro.NewObserver(
@@ -79,10 +91,18 @@ var leakOps = map[string]leakOp{
 				}()
 			}, func(error) {}, func() {}))
 	}, true},
-	"BufferWithTime":        {func(s ro.Observable[int], r *Recorder) ro.Subscription { return subAny(ro.BufferWithTime[int](time.Millisecond)(s), r) }, true},
-	"BufferWithTimeOrCount": {func(s ro.Observable[int], r *Recorder) ro.Subscription { return subAny(ro.BufferWithTimeOrCount[int](2, time.Millisecond)(s), r) }, true},
-	"SampleTime":            {func(s ro.Observable[int], r *Recorder) ro.Subscription { return subAny(ro.SampleTime[int](time.Millisecond)(s), r) }, true},
-	"ThrottleTime":          {func(s ro.Observable[int], r *Recorder) ro.Subscription { return subAny(ro.ThrottleTime[int](time.Millisecond)(s), r) }, true},
+	"BufferWithTime": {func(s ro.Observable[int], r *Recorder) ro.Subscription {
+		return subAny(ro.BufferWithTime[int](time.Millisecond)(s), r)
+	}, true},
+	"BufferWithTimeOrCount": {func(s ro.Observable[int], r *Recorder) ro.Subscription {
+		return subAny(ro.BufferWithTimeOrCount[int](2, time.Millisecond)(s), r)
+	}, true},
+	"SampleTime": {func(s ro.Observable[int], r *Recorder) ro.Subscription {
+		return subAny(ro.SampleTime[int](time.Millisecond)(s), r)
+	}, true},
+	"ThrottleTime": {func(s ro.Observable[int], r *Recorder) ro.Subscription {
+		return subAny(ro.ThrottleTime[int](time.Millisecond)(s), r)
+	}, true},
 	"TakeUntilInterval": {func(s ro.Observable[int], r *Recorder) ro.Subscription {
 		return subAny(ro.TakeUntil[int](ro.Interval(time.Hour))(s), r)
 	}, true},
